@@ -358,7 +358,17 @@ void vfps::HDF5File::addParameterToGroup(std::string groupname,
 void vfps::HDF5File::append(const ElectricField* ef, const bool fullspectrum)
 {
     if (fullspectrum) {
-        _appendData(_csrSpectrum,ef->getCSRSpectrum());
+        /* The field holds getNMax() frequencies per bunch, the file only
+         * the first _maxn (non-negative) ones: copy row by row.
+         */
+        const csrpower_t* spectrum = ef->getCSRSpectrum();
+        const size_t stride = ef->getNMax();
+        std::vector<csrpower_t> rows;
+        rows.reserve(static_cast<size_t>(_nBunches)*_maxn);
+        for (size_t b=0; b<_nBunches; b++) {
+            rows.insert(rows.end(), spectrum+b*stride, spectrum+b*stride+_maxn);
+        }
+        _appendData(_csrSpectrum,rows.data());
     }
     _appendData(_csrIntensity,ef->getCSRPower());
 }
